@@ -981,7 +981,13 @@ ADDENDA = {
            "buffered, compared, delayed, replayed like any other element' is what those obligations say (64 units).",
     "C07": " A slice pipeline built from other stages than those with closed forms drifts to slicerun.py (list slicing on sources of length 0..5, "
            "all start / stop in -6..6, steps 1, 2, 3, 6), which is also the thorough-tier cross-check.",
-    "C28": " HistoricalScheduler.__init__ and TestScheduler.schedule_absolute (vtsub.py) are under function contracts: the clock starts at the given "
+    "C29": " (Session 4c) The same unit as C28 with every clause reported (an advance_to that moves the clock by itself or returns early leaves due "
+           "actions un-run); an action may move the clock forward (sleep() inside an action: the clock after a call-out is arbitrary >= before); "
+           "'returns without running only when a run is already in progress' is taken from the property - advance_to(clock) / advance_by(0) returning "
+           "at once with due actions pending is a KNOWN FINDING (pinned by test_historicalscheduler::test_advance_by). Constructors: schedctor.py, vtsub.py.",
+    "C28": " (Session 4c) An action may move the clock forward (sleep() inside an action): advance_to ends at the target or where an action left the "
+           "clock if later, never backwards (fix bb448a9); advance_to(clock) returning at once with due actions pending is a KNOWN FINDING. "
+           "HistoricalScheduler.__init__ and TestScheduler.schedule_absolute (vtsub.py) are under function contracts: the clock starts at the given "
            "instant or the epoch, the due time is handed on as seconds with the same action and state, nothing else of virtual time is overridden.",
     "C34": " ThreadPoolScheduler: one executor, a thread factory whose startable submits exactly the target once to it (executor contract assumed), "
            "cancel cancels that submission; nothing else overridden.",
@@ -989,6 +995,16 @@ ADDENDA = {
            "subscription; exactly the pair (x, next item) or completion when exhausted), map_indexed_ = zip_with_iterable(infinite()) | "
            "starmap_indexed(m or first), starmap_indexed = map(t -> m(*t)), skip_while_indexed_ = map_indexed(pair) | skip_while(p(*t)) | map(t[0]), "
            "pluck_attr_ = map(getattr): wiring over the K1 contracts of map / skip_while.",
+    "C20": " Constructor contract (the real __init__ establishes the coupling invariant with the spec machine's initial state) and the monitor discipline "
+           "of _subscribe_core on the real AST (decide and register in one critical section of self.lock; no subject state read outside it).",
+    "C21": " Constructor contract (the initial value IS the current value - None and falsy values included) and the monitor discipline of _subscribe_core: "
+           "the current value is handed to the new subscriber inside the critical section that registered it.",
+    "C23": " Constructor contract and the monitor discipline of _subscribe_core (decide and register in one critical section; no state read outside the lock).",
+    "C22": " Monitor discipline of _subscribe_core (registration, trim and replay in one critical section); the native stand-in has fractional ages and "
+           "more than a day of silence (the window is a span).",
+    "C30": " (Session 4c) Contracts follow the repaired trampoline (fix 139da7c): the run loop goes idle in the critical section that saw the queue empty; "
+           "whoever made the trampoline idle touches it no more; whatever leaves the run loop - a BaseException that is no Exception included - the "
+           "trampoline ends idle with an empty queue. Constructors: schedctor.py (the condition is over the trampoline's own lock).",
     "C25": " The action of a Disposable is user code: the monitor harness also runs the path on which it raises - the exception may leave "
            "dispose(), every critical section on the way out still keeps the rely (is_disposed never goes back to False) and the claimed "
            "token stays spent (no second run).",
